@@ -11,4 +11,4 @@ Extraction "oracle.ml" table_provider mkU mkSol mkVs mkPkg mkProblem
   factb db_idx learnt_okb rup
   causalb onceb exactb eagerb cancel_quietb
   mkGraph truthfulb reachableb refutesb check_core check_graph_build build_graph core_clauses
-  check_encoder check_encoder_final enc_run fifo_ok quiet_ok assert_ok estate0 cache0.
+  check_encoder check_encoder_final check_encoder_from check_encoder_final_from cache_after enc_run fifo_ok quiet_ok assert_ok estate0 cache0.
